@@ -575,16 +575,17 @@ theorem readObject_good (d : Nat) (inp : Bytes) : GoodLt inp.length (readObject 
 theorem readDict_good (d : Nat) (inp : Bytes) : GoodLt inp.length (readDict (objFuel inp) d inp) :=
   (all_claims (objFuel inp)).2.2.2.1 d inp (by unfold objFuel; omega) (by unfold objFuel; omega)
 
-theorem recoverExtent_typed (file : Bytes) (start : Nat) : TypedErr (recoverExtent file start) := by
+theorem recoverExtent_typed (file : Bytes) (start : Nat) (limit : Option Nat := none) :
+    TypedErr (recoverExtent file start limit) := by
   intro e he
   unfold recoverExtent at he
   repeat' (first | (cases he <;> first | exact Or.inl rfl | exact Or.inr rfl) | split at he | simp only [] at he)
 
-theorem readStreamData_typed (file : Bytes) (pos : Nat) (declared : Option Nat) :
-    TypedErr (readStreamData file pos declared) := by
+theorem readStreamData_typed (file : Bytes) (pos : Nat) (declared : Option Nat) (limit : Option Nat := none) :
+    TypedErr (readStreamData file pos declared limit) := by
   intro e he
   unfold readStreamData at he
-  have hr := fun s => recoverExtent_typed file s e
+  have hr := fun s => recoverExtent_typed file s limit e
   repeat' (first | (exact hr _ he) | (cases he <;> first | exact Or.inl rfl | exact Or.inr rfl) | split at he | simp only [] at he)
   repeat' (first | (cases he <;> first | exact Or.inl rfl | exact Or.inr rfl) | split at he | simp only [] at he)
 
@@ -615,7 +616,7 @@ theorem declaredOf_typed (getInt : Obj → Except Err Int) (hg : TypedGetInt get
       · exact absurd rfl hne1
 
 theorem readObjectTop_typed (file : Bytes) (pos : Nat) (getInt : Obj → Except Err Int) (hg : TypedGetInt getInt)
-    (scalarOnly : Bool) : TypedErr (readObjectTop file pos getInt scalarOnly) := by
+    (scalarOnly : Bool) (limit : Option Nat := none) : TypedErr (readObjectTop file pos getInt scalarOnly limit) := by
   intro e he
   unfold readObjectTop at he
   repeat' (first | (cases he <;> first | exact Or.inl rfl | exact Or.inr rfl) | split at he | simp only [] at he)
@@ -624,14 +625,14 @@ theorem readObjectTop_typed (file : Bytes) (pos : Nat) (getInt : Obj → Except 
     first
     | exact (readObject_good 0 _).le.typed _ (by assumption)
     | exact (readDict_good 0 _).le.typed _ (by assumption)
-    | exact readStreamData_typed _ _ _ _ (by assumption)
+    | exact readStreamData_typed _ _ _ _ _ (by assumption)
     | exact declaredOf_typed getInt hg _ _ (by assumption))
 
 /-- **`ReadIndirectObject` fails only with `eof` or `malformed`** — on every file, at every
 position, in both modes, with every `getInt` whose own errors are of these two classes.  (These
 are exactly the classes `checkObjects` turns into `Broken`; any other class would abort the scan.) -/
 theorem readIndirect_typed (file : Bytes) (pos : Nat) (getInt : Obj → Except Err Int) (hg : TypedGetInt getInt)
-    (scalarOnly : Bool) : TypedErr (readIndirect file pos getInt scalarOnly) := by
+    (scalarOnly : Bool) (limit : Option Nat := none) : TypedErr (readIndirect file pos getInt scalarOnly limit) := by
   intro e he
   unfold readIndirect at he
   repeat' (first | (cases he <;> first | exact Or.inl rfl | exact Or.inr rfl) | split at he | simp only [] at he)
@@ -639,7 +640,7 @@ theorem readIndirect_typed (file : Bytes) (pos : Nat) (getInt : Obj → Except E
     cases he
     first
     | exact readInt_typed _ _ (by assumption)
-    | exact readObjectTop_typed _ _ _ hg _ _ (by assumption))
+    | exact readObjectTop_typed _ _ _ hg _ _ _ (by assumption))
 
 /-- the `getInt` of `makeSafeGetInt` fails only with `eof` or `malformed` -/
 theorem safeGetInt_typed (file : Bytes) (secs : List HIS.Section) : ∀ (fuel : Nat) (seen : List (Nat × Nat)) (o : Obj),
@@ -655,7 +656,7 @@ theorem safeGetInt_typed (file : Bytes) (secs : List HIS.Section) : ∀ (fuel : 
     repeat' (first | (cases he <;> first | exact Or.inl rfl | exact Or.inr rfl) | split at he | simp only [] at he)
     all_goals first
       | exact ih _ _ _ he
-      | (cases he; exact readIndirect_typed _ _ _ hnested _ _ (by assumption))
+      | (cases he; exact readIndirect_typed _ _ _ hnested _ none _ (by assumption))
 
 /-- **The scan never aborts while checking objects.**  For every file, every set of located
 sections and every located header, `checkObjects` either records the object with its type or
@@ -665,7 +666,7 @@ theorem checkObject_total (file : Bytes) (secs : List HIS.Section) (fo : FileObj
     ∃ c, checkObject file secs fo = .ok c := by
   unfold checkObject
   have ht := readIndirect_typed file fo.start (fun o => (safeGetInt file secs 12 [] o).2)
-    (fun o => safeGetInt_typed file secs 12 [] o) false
+    (fun o => safeGetInt_typed file secs 12 [] o) false (nextStart secs fo.start)
   simp only []
   split
   · exact ⟨_, rfl⟩
@@ -814,7 +815,7 @@ theorem prefix_without_endobj_fails (p : Bytes) (hp : NoEndobj p) (pos : Nat)
     (getInt : Obj → Except Err Int) (hg : TypedGetInt getInt) (scalarOnly : Bool) :
     ∃ e, readIndirect p pos getInt scalarOnly = .error e ∧ (e = .eof ∨ e = .malformed) := by
   cases h : readIndirect p pos getInt scalarOnly with
-  | error e => exact ⟨e, rfl, readIndirect_typed p pos getInt hg scalarOnly e h⟩
+  | error e => exact ⟨e, rfl, readIndirect_typed p pos getInt hg scalarOnly none e h⟩
   | ok ind =>
     obtain ⟨q, hq⟩ := ok_implies_endobj p pos getInt scalarOnly ind h
     rw [hp q] at hq; cases hq
